@@ -7,7 +7,7 @@ def nontrivial(se):
 
 
 def run(res):
-    brokercheck.run(res, "C07", "Props/C07.v", monitors.monitor_c07, nontrivial=nontrivial, focus="flow")
+    brokercheck.run(res, "C07", ["Props/C07.v", "Props/C07_history.v"], monitors.monitor_c07, nontrivial=nontrivial, focus="flow")
 
 
 def replay(path):
